@@ -274,7 +274,18 @@ func (w *World) Close() {
 
 // ConfigText renders a configuration with the given jobs. Every job drops targets
 // labelled drop="yes" and has a metric relabel rule dropping drop_.* metrics.
-func ConfigText(jobs []string) string {
+func ConfigText(jobs []string) string { return ConfigTextRule(jobs, true) }
+
+// ConfigTextRule: with dropRule=false the jobs keep every metric (no metric relabel rule).
+func ConfigTextRule(jobs []string, dropRule bool) string {
+	if !dropRule {
+		var b strings.Builder
+		b.WriteString("global:\n  scrape_interval: 15s\n  scrape_timeout: 10s\nscrape_configs:\n")
+		for _, j := range jobs {
+			fmt.Fprintf(&b, "- job_name: %s\n  relabel_configs:\n  - source_labels: [drop]\n    regex: \"yes\"\n    action: drop\n  static_configs:\n  - targets: ['placeholder:1']\n", j)
+		}
+		return b.String()
+	}
 	var b strings.Builder
 	b.WriteString("global:\n  scrape_interval: 15s\n  scrape_timeout: 10s\nscrape_configs:\n")
 	for _, j := range jobs {
